@@ -31,7 +31,7 @@ theorem invP_stepA (V : Variant) (s s' : State) (h : InvP V s) (hs : stepA V s =
   simp only [stepA] at hs
   split at hs
   · simp at hs; subst hs
-    obtain ⟨a, b, c, d, e, f, g, i, j, k, l, m, n, o⟩ := h
+    obtain ⟨a, b, c, d, e, f, g, i, j, k, l, m, n, o, na⟩ := h
     have hq := List.take_append_drop (if V.arrMax = 0 then s.queue.length else V.arrMax) s.queue
     have hnil : s.queue = [] → s.queue.take (if V.arrMax = 0 then s.queue.length else V.arrMax) = [] ∧
         s.queue.drop (if V.arrMax = 0 then s.queue.length else V.arrMax) = [] := by
@@ -65,6 +65,23 @@ theorem stepMon_hit (V : Variant) (s s' : State) (b : Bool) (m m' : Mon) (hs : s
   all_goals ((repeat' split at hs) <;> simp at hs <;> (try (obtain ⟨h1, h2⟩ := hs; subst h1; rfl)))
 
 theorem stepSub_hit (V : Variant) (s s' : State) (u u' : Sub) (hs : stepSub V s u = some (s', u')) : s'.hit = s.hit := by
+  obtain ⟨ph, cur⟩ := u
+  cases ph <;> simp only [stepSub] at hs
+  all_goals ((repeat' split at hs) <;> simp at hs <;> (try (obtain ⟨h1, h2⟩ := hs; subst h1; rfl)))
+
+theorem stepMon_faulted (V : Variant) (s s' : State) (b : Bool) (m m' : Mon) (hs : stepMon V s b m = some (s', m')) :
+    s'.faulted = s.faulted := by
+  obtain ⟨ph, iter, cur, idx⟩ := m
+  cases ph <;> simp only [stepMon] at hs
+  case post r =>
+    cases r with
+    | nil => simp at hs
+    | cons x r' =>
+      obtain ⟨l, op⟩ := x
+      cases op <;> simp only at hs <;> (try split at hs) <;> simp at hs <;> obtain ⟨h1, h2⟩ := hs <;> subst h1 <;> rfl
+  all_goals ((repeat' split at hs) <;> simp at hs <;> (try (obtain ⟨h1, h2⟩ := hs; subst h1; rfl)))
+
+theorem stepSub_faulted (V : Variant) (s s' : State) (u u' : Sub) (hs : stepSub V s u = some (s', u')) : s'.faulted = s.faulted := by
   obtain ⟨ph, cur⟩ := u
   cases ph <;> simp only [stepSub] at hs
   all_goals ((repeat' split at hs) <;> simp at hs <;> (try (obtain ⟨h1, h2⟩ := hs; subst h1; rfl)))
@@ -126,6 +143,78 @@ theorem hit_mono (V : Variant) (s s' : State) (e : Ev) (hs : step V s e = some s
     split at hs
     · simp at hs; subst hs; exact hh
     · simp at hs
+  | F =>
+    simp only [step] at hs
+    split at hs
+    · simp at hs
+    · simp only [Option.some.injEq] at hs; subst hs; exact hh
+
+/-- a state without injected fault has no armed fault and comes from such a state -/
+theorem faulted_mono (V : Variant) (s s' : State) (e : Ev) (hs : step V s e = some s') (hf : s'.faulted = false) :
+    s.faulted = false ∧ e ≠ .F := by
+  cases e with
+  | F =>
+    simp only [step] at hs
+    split at hs
+    · simp at hs
+    · simp only [Option.some.injEq] at hs; subst hs; simp at hf
+  | S =>
+    refine ⟨?_, by simp⟩
+    simp only [step] at hs
+    cases hsph : s.sph <;> simp only [stepS, hsph] at hs
+    case done => simp at hs
+    all_goals ((repeat' split at hs) <;> (try (simp only [Option.some.injEq] at hs; subst hs)))
+    all_goals (first | exact hf | (simp only [finishS] at hf; split at hf <;> exact hf))
+  | M k =>
+    refine ⟨?_, by simp⟩
+    simp only [step, stepM] at hs
+    split at hs
+    · rename_i m hk
+      split at hs
+      · simp at hs
+      · rename_i s'' m' hm
+        simp at hs; subst hs
+        have := stepMon_faulted V s s'' false m m' hm
+        simp only at hf; rw [this] at hf; exact hf
+    · split at hs
+      · split at hs
+        · simp at hs
+        · rename_i m hmon
+          split at hs
+          · simp at hs
+          · rename_i s'' m' hm
+            simp at hs; subst hs
+            have := stepMon_faulted V s s'' true m m' hm
+            simp only at hf; rw [this] at hf; exact hf
+      · simp at hs
+  | U k =>
+    refine ⟨?_, by simp⟩
+    simp only [step, stepU] at hs
+    split at hs
+    · rename_i u hk
+      split at hs
+      · simp at hs
+      · rename_i s'' u' hu
+        simp at hs; subst hs
+        have := stepSub_faulted V s s'' u u' hu
+        simp only at hf; rw [this] at hf; exact hf
+    · split at hs
+      · split at hs
+        · simp at hs
+        · rename_i u hsub
+          split at hs
+          · simp at hs
+          · rename_i s'' u' hu
+            simp at hs; subst hs
+            have := stepSub_faulted V s s'' u u' hu
+            simp only at hf; rw [this] at hf; exact hf
+      · simp at hs
+  | A =>
+    refine ⟨?_, by simp⟩
+    simp only [step, stepA] at hs
+    split at hs
+    · simp at hs; subst hs; exact hf
+    · simp at hs
 
 theorem hit_of_reachable_step (V : Variant) (s s' : State) (e : Ev) (hs : step V s e = some s') (hh : s'.hit = false) :
     s.hit = false := hit_mono V s s' e hs hh
@@ -142,15 +231,17 @@ theorem pending_nodup {V : Variant} {jobs : List Job} {s : State} (h : Reachable
   omega
 
 theorem reachable_invP {V : Variant} (hW : WF V) {jobs : List Job} (hd : jobs.Nodup) {s : State}
-    (h : Reachable V jobs s) : s.hit = false → InvP V s := by
+    (h : Reachable V jobs s) : s.hit = false → s.faulted = false → InvP V s := by
   induction h with
-  | init => intro _; exact invP_init V jobs
+  | init => intro _ _; exact invP_init V jobs
   | @step s0 s1 e hr hs ih =>
-    intro hh
-    have h0 := ih (hit_mono V s0 s1 e hs hh)
+    intro hh hf
+    obtain ⟨hf0, hne⟩ := faulted_mono V s0 s1 e hs hf
+    have h0 := ih (hit_mono V s0 s1 e hs hh) hf0
     cases e with
     | S => exact invP_stepS V hW s0 s1 h0 hs hh
     | M k => exact invP_stepM V hW s0 s1 k h0 (pending_nodup hr hd) hs
     | U k => exact (invP_stepU V s0 s1 k h0 hs).elim
     | A => exact invP_stepA V s0 s1 h0 hs
+    | F => exact absurd rfl hne
 end RedunModel.Monitor
